@@ -3,8 +3,9 @@ import re, itertools
 from vlib import core, drivers
 
 PROP = 'C12'
-MODULES = ['PistacheModel.Props.C12']
-THEOREMS = ['Pistache.PromiseMT.Props.' + t for t in ('reach_closed_all', 'reachable_in_reach', 'at_most_once', 'exactly_once_fulfilled', 'exactly_once_rejected', 'accesses_locked', 'progress', 'steps_decrease', 'old_code_loses_continuation')]
+MODULES = ['PistacheModel.Props.C12', 'PistacheModel.Props.C12Many']
+THEOREMS = ['Pistache.PromiseMT.Props.' + t for t in ('reach_closed_all', 'reachable_in_reach', 'at_most_once', 'exactly_once_fulfilled', 'exactly_once_rejected', 'accesses_locked', 'progress', 'steps_decrease', 'old_code_loses_continuation')] \
+    + ['Pistache.PromiseN.Props.' + t for t in ('at_most_once', 'exactly_once', 'not_before_attach', 'pending_is_queued', 'settle_never_throws', 'lock_owner', 'some_thread_moves', 'rank_monotone', 'order_nodup', 'runs_in_list_order', 'split_settle_loses_continuation', 'split_settle_lost_forever')]
 
 SCEN = [('P', 'none'), ('D', 'pre'), ('D', 'race')]
 OUT = ['res', 'rej']
@@ -33,6 +34,26 @@ def gen(tier, rnd):
                 while len(s) < rnd.randint(4, 30):
                     s += [str(rnd.randint(0, 1))] * rnd.randint(1, 5)
                 L.append(pre + ','.join(s))
+    # any number of attaching threads (Model/PromiseN, Props/C12Many): thread 0 settles, threads 1..n attach
+    for n in ((2, 3) if tier == 'quick' else (1, 2, 3, 4, 5)):
+        for o in OUT:
+            pre = 'pn %d %s ' % (n, o)
+            L.append(pre + '-')
+            ids = [str(t) for t in range(n + 1)]
+            kmax = {1: 10, 2: 7, 3: 6, 4: 5, 5: 4}[n] - (1 if tier == 'quick' else 0)
+            for k in range(1, kmax + 1):
+                for tup in itertools.product(ids, repeat=k): L.append(pre + ','.join(tup))
+            # the settler stops after i steps, then the attachers run j steps each in a seeded order (and the mirror image)
+            for i in range(0, 7):
+                for j in range(0, 6):
+                    perm = ids[1:]; rnd.shuffle(perm)
+                    L.append(pre + (','.join(['0'] * i + [t for t in perm for _ in range(j)]) or '-'))
+                    L.append(pre + (','.join([t for t in perm for _ in range(j)] + ['0'] * i + perm) or '-'))
+            for _ in range(150 if tier == 'quick' else 3000):
+                s = []
+                while len(s) < rnd.randint(4, 12 * n):
+                    s += [rnd.choice(ids)] * rnd.randint(1, 4)
+                L.append(pre + ','.join(s))
     return L
 
 BAD = ('ASAN', 'UBSAN', 'HANG', 'CRASH', 'TERMINATE', 'MISSING', 'bad-op')
@@ -56,7 +77,9 @@ def oracle(line, out):
     """direct statement of C12 on the implementation's observations"""
     if any(x in out for x in BAD):
         return ('crash', 'implementation aborted, hung or deadlocked: ' + out[:120])
-    w = line.split(); target, outcome = w[1], w[2]
+    w = line.split()
+    if w[0] == 'pn': return oracle_n(w, out)
+    target, outcome = w[1], w[2]
     m = re.match(r'h=(\d+):(-?\d+) hrej=(\d+):(-?\d+) g=(\d+) exc=(\S\S) trace=(\S+) acc=(\S+)$', out)
     if not m: return 'unexpected output ' + out[:80]
     h, hv, hr, hrv, g = (int(m.group(i)) for i in range(1, 6))
@@ -74,14 +97,33 @@ def oracle(line, out):
     if r: return ('race', 'unsynchronised access: ' + '; '.join(r))
     return None
 
+def oracle_n(w, out):
+    """C12 for n attaching threads: every continuation ran exactly once, with the outcome the promise was settled with"""
+    n = int(w[1])
+    m = re.match(r'order=(\S+) exc=(\S+) trace=(\S+)$', out)
+    if not m: return 'unexpected output ' + out[:80]
+    if m.group(2) != '-': return ('exception', 'an operation of the scenario threw: exc=' + m.group(2))
+    order = [] if m.group(1) == '-' else m.group(1).split(',')
+    if any(x.endswith('!') for x in order): return ('wrong-outcome', 'a continuation saw another outcome than the one the promise was settled with: ' + m.group(1))
+    for j in range(n):
+        c = order.count(str(j))
+        if c == 0: return ('lost', 'the continuation attached by thread %d never ran although the promise was settled and every then() returned (%s)' % (j + 1, m.group(1)))
+        if c > 1: return ('twice', 'the continuation attached by thread %d ran %d times (%s)' % (j + 1, c, m.group(1)))
+    return None
+
 def classify(line, out):
     w = line.split()
+    if w[0] == 'pn':
+        m = re.search(r'trace=(\S+)', out)
+        return ('pn', w[1], w[2], m.group(1) if m else out[:20])
     m = re.search(r'trace=(\S+) acc=(\S+)', out)
     return (w[1], w[2], w[3], m.group(1) if m else out[:20])
 
 RULE = ('scenarios {then on P, then on the derived D with g attached beforehand, g and then-on-D both attached inside the race} x {fulfil, reject}: every schedule prefix up to length 9 (thorough 14) over the two threads, '
         'all schedules with at most three context switches, seeded schedules with long runs; each is replayed on the REAL async.h under the cooperative scheduler (yield/lock/access hooks) and on the model; '
-        'continuation counts and values, per-thread yield traces and per-thread access records (core, field, r/w, lock held) are compared. non-trivial = distinct (scenario, per-thread trace)')
+        'continuation counts and values, per-thread yield traces and per-thread access records (core, field, r/w, lock held) are compared. non-trivial = distinct (scenario, per-thread trace). '
+        'pn lines: thread 0 settles while 2-3 (thorough 1-5) threads each attach their own continuation: every schedule prefix up to a length per thread count, settler-window schedules, seeded schedules; '
+        'the order in which the continuations ran and the per-thread yield traces are compared with Model/PromiseN, and every continuation must have run exactly once with the right outcome')
 ASSUME = ['sequentially consistent memory at the granularity of the hooks (one thread runs at a time); weak-memory effects are not exhibited', 'std::mutex semantics: try_lock succeeds iff nobody holds it',
           'values 7 / exception code 9; g returns value+1 and rethrows rejections (Async::Throw); h returns nothing']
 
